@@ -31,7 +31,13 @@ def Node.sendClusterState (n : Node) (newName : Bytes) : List SupEff :=
       (if m.connected then [SupEff.send m.name (b!"replicate-join " ++ newName)] else [])
     else []
 
-def createDbCmd (db : Db) : Bytes := b!"create-db " ++ db.name ++ [32] ++ (db.getKV Gen.tokenKey).1
+/-- the lines of a resynchronisation burst (no version field: the recorded format finding of C05) -/
+def syncCreateDbLine (name token : Bytes) : Bytes := b!"create-db " ++ name ++ [32] ++ token
+def syncSetLine (db key value : Bytes) : Bytes := b!"replicate " ++ db ++ [32] ++ key ++ [32] ++ value
+def syncRemoveLine (db key : Bytes) : Bytes := b!"replicate-remove " ++ db ++ [32] ++ key
+def syncSnapshotLine (db : Bytes) : Bytes := b!"replicate-snapshot " ++ db
+
+def createDbCmd (db : Db) : Bytes := syncCreateDbLine db.name (db.getKV Gen.tokenKey).1
 
 /-- `get_full_sync_opps` (databases and keys in model order; the real order is a hash order) -/
 def Node.fullSyncOps (n : Node) : List Bytes :=
@@ -41,8 +47,8 @@ def Node.fullSyncOps (n : Node) : List Bytes :=
       [createDbCmd db] ++
       (db.map.filterMap fun (k, e) =>
         if k = Gen.tokenKey ∨ k = Gen.connectionsKey then none
-        else some (b!"replicate " ++ db.name ++ [32] ++ k ++ [32] ++ e.value)) ++
-      [b!"replicate-snapshot " ++ db.name]
+        else some (syncSetLine db.name k e.value)) ++
+      [syncSnapshotLine db.name]
 
 inductive SyncOut
   | ok (lines : List Bytes)
@@ -71,17 +77,17 @@ def Node.oplogSyncOps (n : Node) (m : Meta) (since : Nat) : SyncOut :=
         | 0 =>
           match keyOf, n.db? dbName with
           | some key, some db =>
-            .ok (ls ++ [b!"replicate " ++ dbName ++ [32] ++ key ++ [32] ++ (db.getKV key).1])
+            .ok (ls ++ [syncSetLine dbName key (db.getKV key).1])
           | _, _ => .panic
         | 1 =>
           match keyOf with
-          | some key => .ok (ls ++ [b!"replicate-remove " ++ dbName ++ [32] ++ key])
+          | some key => .ok (ls ++ [syncRemoveLine dbName key])
           | none => .panic
         | 2 =>
           match n.db? dbName with
           | some db => .ok (ls ++ [createDbCmd db])
           | none => .panic
-        | _ => .ok (ls ++ [b!"replicate-snapshot " ++ dbName])) (.ok [])
+        | _ => .ok (ls ++ [syncSnapshotLine dbName])) (.ok [])
 
 def Node.pendingOpsSince (n : Node) (m : Meta) (since : Nat) : SyncOut :=
   if since = 0 then .ok n.fullSyncOps else n.oplogSyncOps m since
